@@ -530,6 +530,21 @@ func runC18(w *World, r *Report) {
 	}
 
 	// ---- tool-call-merge
+	r.Rule("C18.chunk-parts-independent", "ConcatMessages collects each part of a chunk (content, tool calls, extra) under a test of that part only: a model chunk that carries text AND a tool-call fragment contributes both, so the assistant message the agent executes and records in Stream mode has every call the model made (shared with C14)", 1)
+	{
+		cm := w.Fn("schema", "ConcatMessages")
+		n, hits := partsGuardedByOtherParts(cm, w.Named("schema", "Message"))
+		for _, h := range hits {
+			r.Fail("C18.chunk-parts-independent", fmt.Sprintf("ConcatMessages: collecting Message.%s depends on Message.%s", h.field.Name(), strings.Join(h.others, ",")), h.app.Pos(), "the append of this part sits behind a test of another part of the same chunk (else-arm / later switch case): a chunk carrying both loses this one — the head of a tool call (id, name) vanishes and the tools node sees a call with an empty name, or no call at all and the agent ends the turn with the text")
+		}
+		if len(hits) == 0 {
+			r.OK("C18.chunk-parts-independent", fmt.Sprintf("ConcatMessages: %d per-part appends", n), cm.Pos(), "each guarded by tests of its own part only")
+		}
+		if n < 3 {
+			undecidedf("C18.chunk-parts-independent: only %d per-part appends found in ConcatMessages", n)
+		}
+	}
+
 	r.Rule("C18.tool-call-merge", "concatToolCalls ranges over all index groups", 1)
 	ctc := w.Fn("schema", "concatToolCalls")
 	var gm *ssa.MakeMap
